@@ -92,8 +92,9 @@ def _clone(x, _depth=0):
 
 
 def _cif_digest(c):
-    d = c.properties.get("cif_data")
-    return "-" if d is None else digest(norm(d))
+    # everything kept in the crystal's properties dictionary (stored CIF data,
+    # name, anything an operation may have parked there)
+    return digest(norm(c.properties))
 
 
 def outcome(fn, c, A, ctx):
